@@ -331,7 +331,12 @@ def _run(ctx, compare=True):
         res.count("kind=" + j[0])
         inp = {"kind": j[0], "args": list(j[1:])}
         if isinstance(o, str):
-            res.disagreements.append({"correspondence": "harness", "input": inp, "impl": o})
+            if "simnet deadlock" in o:
+                # nothing is runnable and no timer is pending, yet the run is not over: a session (or server.close())
+                # waits for something that no timeout bounds any more
+                res.oracle_failures.append({"input": inp, "what": "the run cannot come to an end: every task waits and no timer is pending (%s)" % o, "signature": "C16:%s:waits-for-ever" % j[0]})
+            else:
+                res.disagreements.append({"correspondence": "harness", "input": inp, "impl": o})
             continue
         res.distinct.add(repr(j))
         if j[0] == "idle":
